@@ -129,6 +129,15 @@ def install():
             raise
 
     xtok.CounterToken.acquire = acquire
+    real_tf_init = xtok.TokenFile.__init__
+
+    def tf_init(self, path):
+        # another process can release (delete the file) between our directory listing and our read
+        if ENG is not None:
+            ENG.on_token_file_read(Path(path))
+        real_tf_init(self, path)
+
+    xtok.TokenFile.__init__ = tf_init
     import experimaestro.scheduler.dependencies as xdep
 
     real_add = xdep.Dependents.add
@@ -295,6 +304,7 @@ class Engine:
         self.resubmitted = False
         self.stale_fs = []
         self.tokdir_run = run_index
+        self.read_racers = []  # (f, ti): removed (reclaimed by a third scheduler's watcher) while we read the directory
         self.early_reclaim = False
         self.release_racers = []  # (f, ti): foreign holdings released at our next refused acquisition
         self.racers = []  # (f, ti, w): foreign acquisitions waiting for a window inside ours
@@ -442,6 +452,27 @@ class Engine:
         registered with `frelrace` releases now and the watcher callback runs at once, before
         the scheduler re-checks the dependency"""
         self.race_release(token, "at a refused acquisition")
+
+    def on_token_file_read(self, path):
+        """Called right before a token file found in the directory listing is read"""
+        if not self.read_racers:
+            return
+        for key, info in list(self.foreign.items()):
+            if info["path"] == path and key in self.read_racers:
+                self.read_racers.remove(key)
+                fjob = info["job"]
+                if fjob["alive"]:
+                    fjob["child"].kill()
+                    fjob["child"].wait()
+                    fjob["alive"] = False
+                    try:
+                        (fjob["dir"] / "job.pid").unlink()
+                    except FileNotFoundError:
+                        pass
+                if path.exists():
+                    path.unlink()  # (the foreign scheduler holds the inter-process lock? no: we do - see below)
+                    self.known_files.get(info["ti"], {}).pop(path.name, None)
+                    self.notes.add("token-file-vanishes-between-listing-and-read")
 
     def on_dependents_add(self, resource):
         """Called (loop thread) when a dependency is being registered with its resource: the
@@ -757,6 +788,8 @@ def _run_one(case, scratch, run_index, done_before, prev=None, xp_name=None, end
                 _foreign_open(eng, *op[1:])
             elif op[0] == "frelrace":
                 eng.release_racers.append((op[1], op[2]))
+            elif op[0] == "freadrace":
+                eng.read_racers.append((op[1], op[2]))
             elif op[0] == "frace":
                 if eng.case["tokens"][op[2]]["kind"] == "file":
                     eng.racers.append((op[1], op[2], op[3]))
